@@ -8,6 +8,7 @@ import OpdaProofs.RectBand
 import OpdaProofs.RectPIT
 import OpdaProofs.OrderStatBeta
 import OpdaProofs.LdStat
+import OpdaProofs.BetaHdV
 /-!
 # C01 — CDF confidence bands attain their nominal simultaneous coverage  (partial)
 
@@ -51,11 +52,19 @@ not proved) is no longer in the trusted base: it is evaluated alongside and must
   `ld_equal_tailed_interpolated_critical_value_between_betas`).  For `ld_highest_density` the same is proved for every
   measurable family with finite level sets (`ld_critical_value_coverage_is_beta_of_finite_level_sets`), e.g. every
   family strictly decreasing up to a point and strictly increasing after it (`v_shaped_level_sets`); that the
-  highest-density coverage function has this shape is an explicit hypothesis there, not proved (the function is not
-  defined in Lean).
+  highest-density coverage function has this shape is now a theorem too (`OpdaProofs/BetaHdV.lean`): `hdcov a b x`, the
+  Beta(a,b)-mass of the level set of the density through `x` (= of the smallest highest-density interval containing `x`,
+  C15 `hdcov_spec`, `hd_coverage_is_mass_of_shortest_interval_left/right`), is measurable, strictly decreasing on `[0,m]`
+  and strictly increasing on `[m,1]`, `m` the mode (C15 `hd_coverage_v_shaped`; end-point modes for `a = 1` / `b = 1`
+  included); so for `n ≥ 2` the coverage functions `hdcov (i+1) (n−i)` of `ld_highest_density` have level sets of at most
+  two points (`ld_highest_density_coverage_functions_v_shaped`), the statistic has a continuous distribution function
+  (`ld_highest_density_cdf_continuous`), and the Beta law and the bracket for the interpolated quantile hold with NO
+  hypothesis (`ld_highest_density_critical_value_coverage_is_beta`,
+  `ld_highest_density_interpolated_critical_value_between_betas`).  (`n = 1`, where the only order statistic is uniform
+  and every interval is highest-density, is excluded.)
 Still cited / not formalised: DKW–Massart, the Kolmogorov–Smirnov law inside scipy.  For the ld methods what remains
-outside Lean is (i) for `ld_highest_density` only: that the coverage functions have finite level sets in `[0,1]`
-(for `ld_equal_tailed` the continuity of the statistic's distribution function is now a theorem), (ii) that the
+outside Lean is (i) nothing about level sets any more (the continuity of the statistic's distribution function is a
+theorem for `ld_equal_tailed`, `n ≥ 1`, and for `ld_highest_density`, `n ≥ 2`), (ii) that the
 code's `np.quantile(ts, confidence)` is the interpolated order statistic the theorem speaks about, (iii) the
 numerical Beta quantiles (`scipy.stats.beta.ppf`) the harness uses for its acceptance window, and (iv) that the code's
 float coverage functions (`scipy.stats.beta.cdf`, bisection) realise the real functions the theorem is about.  (The
@@ -508,10 +517,10 @@ theorem ld_equal_tailed_interpolated_critical_value_between_betas (n : ℕ) [NeZ
 
 /-- **any family with finite level sets — the form that covers `ld_highest_density`**: the Beta law of the coverage of a
 simulated order statistic for every family of measurable coverage functions with finite level sets in `[0,1]`.  For the
-highest-density family (coverage of the smallest highest-density interval containing `x`) the finiteness is the
-hypothesis `hlev`; it is NOT proved here (the function is not defined in Lean; `C15.hd_level_set` gives the level-set
-structure of the *density*, from which the coverage function is strictly decreasing left of the mode and strictly
-increasing right of it — see `v_shaped_level_sets`). -/
+highest-density family (coverage of the smallest highest-density interval containing `x`, `Opda.BetaHdV.hdcov`, C15
+`hdcov_spec`) the finiteness `hlev` is a theorem (`ld_highest_density_coverage_functions_v_shaped`: strictly decreasing left
+of the mode, strictly increasing right of it), and the hypothesis-free instance is
+`ld_highest_density_critical_value_coverage_is_beta` below. -/
 theorem ld_critical_value_coverage_is_beta_of_finite_level_sets (n : ℕ) [NeZero n] (c : Fin n → ℝ → ℝ)
     (hc : ∀ i, Measurable (c i)) (hlev : ∀ i t, {x | x ∈ Set.Icc (0:ℝ) 1 ∧ c i x = t}.Finite)
     (N : ℕ) (k : Fin N) (t : ℝ) (ht0 : 0 ≤ t) (ht1 : t ≤ 1) :
@@ -530,9 +539,66 @@ theorem ld_v_shaped_statistic_cdf_continuous (n : ℕ) [NeZero n] (c : Fin n →
     (m : Fin n → ℝ) (hl : ∀ i, StrictAntiOn (c i) (Set.Icc 0 (m i))) (hr : ∀ i, StrictMonoOn (c i) (Set.Icc (m i) 1)) :
     Continuous (cdfOf (ldLaw c)) := vShapeLaw_cdf_continuous hc m hl hr
 
+/-! #### `ld_highest_density`: the coverage functions are V-shaped, so nothing is left as a hypothesis (`n ≥ 2`) -/
+
+/-- the coverage functions of `ld_highest_density`: `betaHdCov n i = hdcov (i+1) (n−i)`, `i` 0-based — the mass under
+Beta(i+1, n−i) of the level set of its density through `x` (C15 `hdcov_spec`), i.e. of the smallest highest-density interval
+containing `x` (C15 `hd_coverage_is_mass_of_shortest_interval_left/right`) -/
+theorem betaHdCov_spec (n : ℕ) (i : Fin n) : Opda.BetaHdV.betaHdCov n i = Opda.BetaHdV.hdcov (i.val + 1) (n - i.val) := rfl
+
+/-- **the shape that was a hypothesis**: for `n ≥ 2` every coverage function of `ld_highest_density` is measurable, strictly
+decreasing on `[0, mᵢ]` and strictly increasing on `[mᵢ, 1]`, `mᵢ = i/(n−1)` the mode of Beta(i+1, n−i) (for `i = 0` and
+`i = n−1` the density is monotone, `mᵢ` is an end point and the function is strictly monotone on `[0,1]`); hence its level
+sets in `[0,1]` have at most two points -/
+theorem ld_highest_density_coverage_functions_v_shaped (n : ℕ) (hn : 2 ≤ n) (i : Fin n) :
+    Measurable (Opda.BetaHdV.betaHdCov n i)
+      ∧ Opda.BetaHdV.betaHdMode n i = (i.val : ℝ) / ((n : ℝ) - 1)
+      ∧ StrictAntiOn (Opda.BetaHdV.betaHdCov n i) (Set.Icc 0 (Opda.BetaHdV.betaHdMode n i))
+      ∧ StrictMonoOn (Opda.BetaHdV.betaHdCov n i) (Set.Icc (Opda.BetaHdV.betaHdMode n i) 1)
+      ∧ ∀ t, {x | x ∈ Set.Icc (0:ℝ) 1 ∧ Opda.BetaHdV.betaHdCov n i x = t}.Finite :=
+  ⟨Opda.BetaHdV.betaHd_measurable n hn i, Opda.BetaHdV.betaHdMode_eq n i, Opda.BetaHdV.betaHd_strictAntiOn n hn i,
+   Opda.BetaHdV.betaHd_strictMonoOn n hn i, Opda.BetaHdV.betaHd_level_finite n hn i⟩
+
+/-- **the statistic of `ld_highest_density` has a continuous distribution function**, for every `n ≥ 2`; no hypothesis left
+(`ld_v_shaped_statistic_cdf_continuous` instantiated with `c i = hdcov (i+1) (n−i)`) -/
+theorem ld_highest_density_cdf_continuous (n : ℕ) [NeZero n] (hn : 2 ≤ n) :
+    Continuous (cdfOf (ldLaw (Opda.BetaHdV.betaHdCov n))) := Opda.BetaHdV.betaHd_cdf_continuous n hn
+
+/-- **`simulated_critical_value_coverage_is_beta` without the continuity hypothesis, for `ld_highest_density`**: let `ν` be
+the law of `T = max_i hdcov(i+1, n−i)(U₍ᵢ₎)` for `n ≥ 2` independent uniforms and `F` its distribution function (`F t` =
+coverage of the band with critical value `t`, `ld_law_cdf_is_band_coverage`).  For `N` independent draws `T₁..T_N` of the
+statistic and `k : Fin N`, `P[F(T₍ₖ₎) ≤ t] = ∫₀ᵗ betaPDF(k+1, N−k)` for `t ∈ [0,1]`.
+Still outside: that the code's floats (scipy `beta.cdf/pdf`, float bisection for the partner) realise these real functions,
+and `np.quantile` (next theorem). -/
+theorem ld_highest_density_critical_value_coverage_is_beta (n : ℕ) [NeZero n] (hn : 2 ≤ n) (N : ℕ) (k : Fin N) (t : ℝ)
+    (ht0 : 0 ≤ t) (ht1 : t ≤ 1) :
+    (Measure.pi fun _ : Fin N => ldLaw (Opda.BetaHdV.betaHdCov n))
+        {y | cdfOf (ldLaw (Opda.BetaHdV.betaHdCov n)) (orderStat y k) ≤ t}
+      = ENNReal.ofReal (∫ s in (0:ℝ)..t,
+          (betaNorm (k.val + 1) (N - k.val) : ℝ) * (s ^ k.val * (1 - s) ^ (N - 1 - k.val))) :=
+  ld_coverage_beta (Opda.BetaHdV.betaHd_measurable n hn) (Opda.BetaHdV.betaHd_level_null n hn) k ht0 ht1
+
+/-- … and the interpolated quantile (`interpolated_critical_value_coverage_between_betas`) for `ld_highest_density`,
+unconditionally -/
+theorem ld_highest_density_interpolated_critical_value_between_betas (n : ℕ) [NeZero n] (hn : 2 ≤ n) (N : ℕ)
+    (k k' : Fin N) (hkk : k ≤ k') (lam : ℝ) (h0 : 0 ≤ lam) (h1 : lam ≤ 1) (t : ℝ) (ht0 : 0 ≤ t) (ht1 : t ≤ 1) :
+    ENNReal.ofReal (G (k'.val + 1) (N - k'.val) t)
+        ≤ (Measure.pi fun _ : Fin N => ldLaw (Opda.BetaHdV.betaHdCov n))
+            {y | cdfOf (ldLaw (Opda.BetaHdV.betaHdCov n)) (orderStat y k + lam * (orderStat y k' - orderStat y k)) ≤ t}
+      ∧ (Measure.pi fun _ : Fin N => ldLaw (Opda.BetaHdV.betaHdCov n))
+            {y | cdfOf (ldLaw (Opda.BetaHdV.betaHdCov n)) (orderStat y k + lam * (orderStat y k' - orderStat y k)) ≤ t}
+        ≤ ENNReal.ofReal (G (k.val + 1) (N - k.val) t) :=
+  ld_interpolated_between_betas (Opda.BetaHdV.betaHd_measurable n hn) (Opda.BetaHdV.betaHd_level_null n hn) k k' hkk h0 h1
+    ht0 ht1
+
 /-- non-vacuity: the hypotheses of the general theorems hold for the equal-tailed family at `n = 3` -/
 example : ∃ c : Fin 3 → ℝ → ℝ, (∀ i, Measurable (c i)) ∧ ∀ i t, {x | x ∈ Set.Icc (0:ℝ) 1 ∧ c i x = t}.Finite :=
   ⟨betaEtCov 3, betaEt_measurable 3, betaEt_level_finite 3⟩
+
+/-- … and for the highest-density family at `n = 3` -/
+example : ∃ c : Fin 3 → ℝ → ℝ, (∀ i, Measurable (c i)) ∧ ∀ i t, {x | x ∈ Set.Icc (0:ℝ) 1 ∧ c i x = t}.Finite :=
+  ⟨Opda.BetaHdV.betaHdCov 3, Opda.BetaHdV.betaHd_measurable 3 (by norm_num),
+    Opda.BetaHdV.betaHd_level_finite 3 (by norm_num)⟩
 
 /-- non-vacuity of the V-shape hypotheses: `x ↦ |x − 1/2|` about `m = 1/2` -/
 example : StrictAntiOn (fun x : ℝ => |x - 1 / 2|) (Set.Icc 0 (1 / 2))
